@@ -3866,6 +3866,8 @@ class Shape(SVGElement, GraphicObject, Transformable):
                 segment_pos = (position - segment_start) / (segment_end - segment_start)
                 break
             segment_start = segment_end
+        else:
+            segment_pos = 1.0
         return segment.point(segment_pos)
 
     def length(self, error=ERROR, min_depth=MIN_DEPTH):
